@@ -11,14 +11,14 @@ structure AState where
   inRun : Bool
   run : Bytes            -- the real whitespace bytes of the current run
   seenNewline : Bool
-  lastChar : UInt8
-  charBeforeTrim : UInt8
+  lastChar : Option UInt8
+  charBeforeTrim : Option UInt8
   out : Bytes
 
 def aFlush (r : UInt8) (st : AState) : AState :=
   if st.inRun then
     (if !st.seenNewline then { st with out := st.out ++ st.run, inRun := false, run := [] }
-     else if !isTightJoiner st.charBeforeTrim && !isTightJoiner r then
+     else if !isTightJoinerO st.charBeforeTrim && !isTightJoiner r then
        { st with out := st.out ++ [32], inRun := false, run := [] }
      else { st with inRun := false, run := [] })
   else st
@@ -32,7 +32,7 @@ def aStep (r : UInt8) (st : AState) : AState :=
     if isSpace r || nl then
       { st1 with seenNewline := nl, inRun := true, run := [r], charBeforeTrim := st1.lastChar }
     else
-      { st1 with seenNewline := nl, out := st1.out ++ [r], lastChar := r }
+      { st1 with seenNewline := nl, out := st1.out ++ [r], lastChar := some r }
 
 def aFinal (ta : Bool) (st : AState) : Bytes :=
   if !st.seenNewline && st.inRun && !ta then st.out ++ st.run else st.out
@@ -42,7 +42,7 @@ def aLoop (ta : Bool) : Bytes → AState → Bytes
   | r :: rest, st => aLoop ta rest (aStep r st)
 
 def aInit (tb : Bool) : AState :=
-  { inRun := tb, run := [], seenNewline := tb, lastChar := 0, charBeforeTrim := 0, out := [] }
+  { inRun := tb, run := [], seenNewline := tb, lastChar := none, charBeforeTrim := none, out := [] }
 
 /-- index-free reference semantics of the state machine -/
 def rawtextA (s : Bytes) (tb ta : Bool) : Bytes := aLoop ta s (aInit tb)
@@ -58,7 +58,7 @@ structure Rel (pre : Bytes) (c : RTState) (a : AState) : Prop where
   bound : a.out.length + a.run.length ≤ pre.length
   spaces : (a.inRun = false ∧ c.spaces = 0 ∧ a.run = []) ∨
            (a.inRun = true ∧ c.spaces = a.run.length ∧ c.spaces > 0) ∨
-           (a.inRun = true ∧ c.spaces = a.run.length + 1 ∧ a.seenNewline = true ∧ a.charBeforeTrim = 0)
+           (a.inRun = true ∧ c.spaces = a.run.length + 1 ∧ a.seenNewline = true ∧ a.charBeforeTrim = none)
 
 theorem copyRange_suffix (p0 run rest : Bytes) :
     copyRange (p0 ++ run ++ rest) (((p0 ++ run).length : Nat) - (run.length : Nat) : Int) (p0 ++ run).length = some run := by
@@ -120,8 +120,8 @@ theorem step_rel (pre rest : Bytes) (r : UInt8) (c : RTState) (a : AState) (h : 
           rw [hsuf, hs]; simpa using this
         by_cases h3 : a.seenNewline = true
         · have h3c : c.seenNewline = true := by rw [hsnl]; exact h3
-          by_cases h4 : (!isTightJoiner a.charBeforeTrim && !isTightJoiner r) = true
-          · have h4c : (!isTightJoiner c.charBeforeTrim && !isTightJoiner r) = true := by rw [hcbt]; exact h4
+          by_cases h4 : (!isTightJoinerO a.charBeforeTrim && !isTightJoiner r) = true
+          · have h4c : (!isTightJoinerO c.charBeforeTrim && !isTightJoiner r) = true := by rw [hcbt]; exact h4
             have hp1 : pushOut cap c.out [32] = some (c.out ++ [32]) := by
               apply pushOut_ok; simp [hlen, hout]; omega
             have hp2 : pushOut cap (c.out ++ [32]) [r] = some (c.out ++ [32] ++ [r]) := by
@@ -130,8 +130,8 @@ theorem step_rel (pre rest : Bytes) (r : UInt8) (c : RTState) (a : AState) (h : 
               Option.pure_def, Option.bind_eq_bind, Option.bind_some]
             refine ⟨_, rfl, ?_⟩
             rel_done
-          · have h4c : (!isTightJoiner c.charBeforeTrim && !isTightJoiner r) = false := by rw [hcbt]; simpa using h4
-            have h4a : (!isTightJoiner a.charBeforeTrim && !isTightJoiner r) = false := by simpa using h4
+          · have h4c : (!isTightJoinerO c.charBeforeTrim && !isTightJoiner r) = false := by rw [hcbt]; simpa using h4
+            have h4a : (!isTightJoinerO a.charBeforeTrim && !isTightJoiner r) = false := by simpa using h4
             have hp2 : pushOut cap c.out [r] = some (c.out ++ [r]) := by
               apply pushOut_ok; simp [hlen, hout]; omega
             simp only [h3, h3c, h4a, h4c, hp2, Bool.not_true, Bool.false_eq_true, if_false,
@@ -151,7 +151,7 @@ theorem step_rel (pre rest : Bytes) (r : UInt8) (c : RTState) (a : AState) (h : 
   · -- the phantom space of trimBefore (+ possibly real bytes): seenNewline holds, so the run is never copied
     have hposs : c.spaces > 0 := by omega
     have h3c : c.seenNewline = true := by rw [hsnl]; exact hnl
-    have hz' : c.charBeforeTrim = 0 := by rw [hcbt]; exact hz
+    have hz' : c.charBeforeTrim = none := by rw [hcbt]; exact hz
     by_cases h1 : isSpace r = true
     · simp only [hposs, h1, hi, and_self, if_true]
       refine ⟨_, rfl, ?_⟩
@@ -161,7 +161,7 @@ theorem step_rel (pre rest : Bytes) (r : UInt8) (c : RTState) (a : AState) (h : 
         refine ⟨_, rfl, ?_⟩
         rel_done
       · simp only [hposs, h1, h2, hi, and_false, if_false, if_true, Bool.false_eq_true, Bool.or_self]
-        have ht : isTightJoiner (0 : UInt8) = true := by decide
+        have ht : isTightJoinerO none = true := rfl
         have hp2 : pushOut cap c.out [r] = some (c.out ++ [r]) := by
           apply pushOut_ok; simp [hlen, hout]; omega
         simp only [hnl, h3c, hz, hz', ht, hp2, Bool.not_true, Bool.false_eq_true, if_false, Bool.false_and,
